@@ -217,7 +217,7 @@ func runC03(tier string, seed uint64) {
 						continue
 					}
 					v2 := rng.Intn(4) == 0
-					s.List(ListReq{Bucket: b, Prefix: p, Delim: d, MaxKeys: -1, V2: v2})
+					s.List(ListReq{Bucket: b, Prefix: p, Delim: d, MaxKeys: -1, V2: v2, EmptyDelim: d == "" && len(p)%2 == 1}) // an empty delimiter= is no delimiter
 					if len(keys) > 0 {
 						nontrivial(fmt.Sprint(kind, keys, p, d))
 					}
@@ -349,10 +349,38 @@ func c04EncodedKeys() {
 	s.end()
 }
 
+// c04SuspendedDeletes: keys hidden by deletes made while versioning is suspended (over versions written
+// while it was enabled) sit inside groups of live keys; the walks pass over them like over any other
+// delete-marked key
+func c04SuspendedDeletes() {
+	s := newSess("c04", "mem", SessOpts{})
+	b := singleBucketName
+	s.MkBucket(b)
+	s.SetVersioning(b, true)
+	keys := []string{"a/1", "a/2", "a/3", "b", "c/1", "c/2", "d-1", "d-2"}
+	for _, k := range keys {
+		s.Put(b, k, []byte(k), nil)
+	}
+	s.SetVersioning(b, false)
+	for _, k := range []string{"a/2", "c/2", "d-1"} {
+		s.Delete(b, k)
+	}
+	for _, pd := range [][2]string{{"", "/"}, {"", ""}, {"a/", "/"}, {"", "-"}, {"c", "/"}} {
+		for mk := 1; mk <= 6; mk++ {
+			for _, v2 := range []bool{false, true} {
+				s.walk(b, pd[0], pd[1], mk, v2, len(keys)+1)
+				nontrivial(fmt.Sprint("suspended-deletes", pd, mk, v2))
+			}
+		}
+	}
+	s.end()
+}
+
 func runC04(tier string, seed uint64) {
 	rng := NewRng(seed)
 	c04LeadingDelimiter()
 	c04EncodedKeys()
+	c04SuspendedDeletes()
 	// (1) paginating backend
 	{
 		sets := keySets(tier, NewRng(seed+7), false)
